@@ -600,7 +600,7 @@ class BaseModel(object):
         """
         for name, col in self._columns.items():
             v = getattr(self, name)
-            if v is None and not self._values[name].explicit and col.has_default:
+            if v is None and not self._values[name].explicit and col.has_default and not self._is_persisted:
                 v = col.get_default()
             val = col.validate(v)
             self._set_column_value(name, val)
